@@ -86,6 +86,8 @@ def worker_main(a):
                 break
             continue
         out['runs'].append([idx, dec, res.event_digest(), len(res.violations)])
+        if res.violations:
+            out.setdefault('viol_runs', {})[str(idx)] = sorted({v.sig for v in res.violations})
         if a.light:
             continue
         out['stats'].update(res.stats)
@@ -339,6 +341,14 @@ def check(pid, tier, runs=None, workers=None, quiet=False):
                 ok = True
                 note = ('  note: the run alone does not fail in a fresh interpreter; it fails after the listed earlier '
                         'runs in the same process (state kept between calls) - the replay file holds that run sequence')
+            else:
+                wr = worker_replay(pid, tier, seed, ex['run'], workers, v.sig, timeout)
+                if wr is not None:
+                    path = wr
+                    ok = True
+                    note = ('  note: reproduces only when the original worker process is re-executed from its first run '
+                            '(the behaviour depends on process-level state such as object identities) - the replay file '
+                            'names that worker invocation')
         if not ok:
             unreproducible.append(f'minimised trace {path} (oracle={v2.oracle} class={v2.cls}, run {ex["run"]}) did not '
                                   f'reproduce in a fresh interpreter: {msg[:300]}')
@@ -472,6 +482,39 @@ def sequence_replay(prop, pid, tier, seed, run, workers, sig, budget_s=120):
     return path
 
 
+def _worker_once(pid, tier, seed, start, stop, step, timeout):
+    scratch = tempfile.mkdtemp(prefix='vsim-wr-')
+    try:
+        j = Job('wr', 0, start, stop, step, False)
+        _spawn(j, pid, tier, seed, scratch, timeout)
+        try:
+            j.proc.wait(timeout=timeout + 60)
+        except subprocess.TimeoutExpired:
+            j.proc.kill()
+            return None
+        if j.proc.returncode != 0 or not os.path.exists(j.out):
+            return None
+        with open(j.out) as fh:
+            return json.load(fh)
+    finally:
+        shutil.rmtree(scratch, ignore_errors=True)
+
+
+def worker_replay(pid, tier, seed, run, workers, sig, timeout):
+    start, step = run % workers, workers
+    r = _worker_once(pid, tier, seed, start, run + 1, step, timeout)
+    if r is None or sig not in (r.get('viol_runs') or {}).get(str(run), []):
+        return None
+    d = os.path.join(env.VERIF_DIR, 'replays')
+    os.makedirs(d, exist_ok=True)
+    path = os.path.join(d, f'{pid}-{seed}-{run}-worker.json')
+    with open(path, 'w') as fh:
+        json.dump({'property': pid, 'seed': seed, 'tier': tier, 'signature': sig, 'run': run,
+                   'worker': {'start': start, 'stop': run + 1, 'step': step, 'timeout': timeout},
+                   'penman_tree': env.tree_hash()}, fh, indent=1)
+    return path
+
+
 def seq_main(a):
     prop = load_prop(a.prop)
     runs = [int(x) for x in a.runs.split(',') if x]
@@ -493,6 +536,17 @@ def replay(path):
     prop = load_prop(pid)
     if 'divergence' in doc:
         return replay_divergence(doc)
+    if 'worker' in doc:
+        w = doc['worker']
+        print(f'vsim replay: property={pid} re-executing worker runs {w["start"]}..{w["stop"] - 1} step {w["step"]}')
+        r = _worker_once(pid, doc['tier'], doc['seed'], w['start'], w['stop'], w['step'], w.get('timeout', 1200))
+        sigs = (r or {}).get('viol_runs', {}).get(str(doc['run']), [])
+        if doc.get('signature') in sigs:
+            print(f'  violation {doc.get("signature")} in run {doc["run"]}')
+            print(f'VIOLATION property={pid} replay={path}')
+            return 1
+        print('replay: the recorded violation did not occur on this tree')
+        return 0
     if 'sequence' in doc:
         print(f'vsim replay: property={pid} run sequence {doc["sequence"]} (one process, in order)')
         hit = []
